@@ -641,10 +641,7 @@ class Context(Ctx):
                '/-- the current text of `stdnum/%s.dat` -/' % rname,
                'def text : String := "%s"' % lit, '',
                '/-- the registry tree: the model reader applied to the file text -/',
-               'def db : List Spec.NumDB.Entry :=',
-               '  match Spec.NumDB.readText (Py.ofString text) with',
-               '  | .ok t => t',
-               '  | .error _ => []', '', 'end Gen.%s' % ns]
+               'def db : List Spec.NumDB.Entry := Spec.NumDB.dbOfText (Py.ofString text)', '', 'end Gen.%s' % ns]
         return {'%s.lean' % ns: '\n'.join(out) + '\n'}
 
     def emit_ccmods(self):
